@@ -318,6 +318,32 @@ func DiscardEqualsPeeked(p *load.Program, r *report.Report) {
 				default:
 					r.OK(rule, key, p.Pos(c.Pos()), fmt.Sprintf("discards the %d bytes of the detection window", window))
 				}
+				// only after a successful peek: when peek failed nothing was looked at (a failed bufio Peek consumes nothing),
+				// discarding then throws away bytes nobody has seen
+				key2 := fmt.Sprintf("discard/%s/discardPeeked#%d/after-successful-peek", FuncKey(f), n)
+				okPeek := false
+				for _, pb := range f.Blocks {
+					for _, pin := range pb.Instrs {
+						pc, isC := pin.(*ssa.Call)
+						if !isC || pc.Call.StaticCallee() != pk {
+							continue
+						}
+						var ev ssa.Value
+						for _, ref := range *pc.Referrers() {
+							if e, isE := ref.(*ssa.Extract); isE && e.Index == 1 {
+								ev = e
+							}
+						}
+						if ev != nil && ssau.NilAt(ev, c.Block()) {
+							okPeek = true
+						}
+					}
+				}
+				if okPeek {
+					r.OK(rule, key2, p.Pos(c.Pos()), "the call is dominated by the nil edge of peek's error")
+				} else {
+					r.Bad(rule, key2, p.Pos(c.Pos()), "discardPeeked can run although peek failed: on a bufio.Reader a failed Peek has consumed nothing, the discard then drops bytes that were never examined (a retry after a transient read error is misaligned)")
+				}
 			}
 		}
 	}
